@@ -149,12 +149,29 @@ func (o *Object) Write(rootGoitPath string) error {
 			return fmt.Errorf("%w: %s", ErrIOHandling, dirPath)
 		}
 	}
-	f, err := os.Create(filePath)
-	if err != nil {
-		return fmt.Errorf("%w: %s", ErrIOHandling, filePath)
+	// objects are addressed by their content: an object which is already stored is never rewritten,
+	// so storing it again can not damage it
+	if _, err := os.Stat(filePath); err == nil {
+		return nil
 	}
-	defer f.Close()
+	// write to a temporary file and rename it into place:
+	// the object appears under its id only when it is complete
+	tmpPath := filepath.Join(rootGoitPath, "object.tmp")
+	f, err := os.Create(tmpPath)
+	if err != nil {
+		return fmt.Errorf("%w: %s", ErrIOHandling, tmpPath)
+	}
 	if _, err := f.Write(buf.Bytes()); err != nil {
+		f.Close()
+		os.Remove(tmpPath)
+		return fmt.Errorf("%w: %s", ErrIOHandling, tmpPath)
+	}
+	if err := f.Close(); err != nil {
+		os.Remove(tmpPath)
+		return fmt.Errorf("%w: %s", ErrIOHandling, tmpPath)
+	}
+	if err := os.Rename(tmpPath, filePath); err != nil {
+		os.Remove(tmpPath)
 		return fmt.Errorf("%w: %s", ErrIOHandling, filePath)
 	}
 	return nil
